@@ -1445,14 +1445,20 @@ Section WithCfg.
     building w (es <- into_as_slice it ;; extend_from_slice w es) ;;;
     make_into w.
 
+  (* src/impl/into_iter.rs, `impl Drop for IntoIter`: the body (EquivDrain.into_drop_equiv) ... *)
+  Definition into_drop_body (it : into_it) : M unit :=
+    let v := i_vec it in
+    d <- is_default v ;;
+    if d then ret tt else
+    l <- len v ;;
+    set_len v 0 ;;;
+    es <- read_list (i_pos it) l ;;
+    drop_list es.
+
+  (* ... and Rust's drop glue: the embedded vector `v` is dropped afterwards, also when the body unwinds *)
   Definition into_drop (it : into_it) : M unit :=
     let v := i_vec it in
     d <- is_default v ;;
     if d then set_handle v None else
-    try_finally
-      (l <- len v ;;
-       set_len v 0 ;;;
-       es <- read_list (i_pos it) l ;;
-       drop_list es)
-      (drop_vec v).
+    try_finally (into_drop_body it) (drop_vec v).
 End WithCfg.
